@@ -98,6 +98,23 @@ func lattice(e *simEnv, p *refmatch.Probe, l *latticeCtx, other otherIdentities,
 			emit(gen.WrapError(l.next(v.V6), e.local, gen.TimeExceeded, 0, q, style, nil, 0), f.Name, pvv.name)
 		}
 	}
+	if !v.V6 && len(base) >= 28 {
+		// a quote whose IP header carries 8 option bytes (IHL 7) that spell this probe's transport identifiers, followed
+		// by the transport header of a DIFFERENT flow: a matcher that reads the quoted transport header at a fixed
+		// 20-byte offset would take the option bytes for the probe's ports / sequence / echo id
+		q := make([]byte, 0, len(base)+8)
+		q = append(q, base[:20]...)
+		q = append(q, base[20:28]...) // "options" = the genuine first 8 transport bytes
+		foreign := append([]byte(nil), base[20:]...)
+		for i := 0; i < 8 && i < len(foreign); i++ {
+			foreign[i] ^= 0x5a
+		}
+		q = append(q, foreign...)
+		q[0] = 0x47
+		binary.BigEndian.PutUint16(q[2:], uint16(len(q)))
+		gen.FixIPv4Checksum(q, "fix")
+		emit(gen.WrapError(l.next(false), e.local, gen.TimeExceeded, 0, q, "full", nil, 0), "qhdr-options", "l4-in-options")
+	}
 	// direct replies
 	tgt := e.spec.Target
 	switch v.Proto {
